@@ -25,7 +25,7 @@ class Unsupported(Exception):
 
 
 # --------------------------------------------------------------------------- rewrites
-def _strip_docs_attrs(text, log):
+def _strip_docs_attrs(text, log, keep_eq=False):
     out = []
     n = 0
     for line in text.split('\n'):
@@ -38,8 +38,12 @@ def _strip_docs_attrs(text, log):
             continue
         if re.match(r'#\[derive\(.*\)\]$', s):
             # keep Clone/Copy/PartialEq (Verus supports them), drop the rest (Debug etc.)
-            keep = [d for d in re.findall(r'[A-Za-z_:]+', s[len('#[derive('):-2]) if d in ('Clone', 'Copy', 'PartialEq', 'Eq')]
+            keep = [d for d in re.findall(r'[A-Za-z_:]+', s[len('#[derive('):-2]) if d in ('Clone', 'Copy') or (keep_eq and d in ('PartialEq', 'Eq'))]
             n += 1
+            if 'Clone' in keep and 'Copy' not in keep:
+                keep.remove('Clone')        # derive(Clone) on non-Copy data (HashMap fields) crashes this Verus; not needed
+            if 'PartialEq' in keep and re.search(r'\benum\b', text):
+                keep.append('Structural')   # Verus: exec `==` on the enum is spec equality
             if keep:
                 out.append(line[:len(line) - len(line.lstrip())] + '#[derive(%s)]' % ', '.join(keep))
             continue
@@ -191,6 +195,13 @@ def _rule_r2_r3(text, log):
         return ('let mut __i_%s: usize = 0; %swhile __i_%s < %s.len() { let %s = %s[__i_%s]; __i_%s = __i_%s + 1;'
                 % (mm.group(2), mm.group(1), mm.group(2), mm.group(3), mm.group(2), mm.group(3), mm.group(2), mm.group(2), mm.group(2)))
     text = re.sub(r"((?:'[a-z_]+\s*:\s*)?)for\s+([a-z_][a-z0-9_]*)\s+in\s+([A-Z][A-Z0-9_]*)\s*\{", r2, text)
+    # R3c (only when the unit enables it): `for x in v {` over a Vec<T: Copy> named by a plain identifier -> index loop
+    if 'R3c' in _ACTIVE_RULES:
+        def r3c(mm):
+            nonlocal n3
+            n3 += 1
+            return '%sfor __i_%s in 0..%s.len() { let %s = %s[__i_%s];' % (mm.group(1), mm.group(2), mm.group(3), mm.group(2), mm.group(3), mm.group(2))
+        text = re.sub(r"((?:'[a-z_]+\s*:\s*)?)for\s+([a-z_][a-z0-9_]*)\s+in\s+([a-z_][a-z0-9_]*)\s*\{", r3c, text)
     # R3b: `for x in E.iter_mut() { BODY }` -> index loop, `*x` replaced by `E[i]` in BODY
     while True:
         m = rs.mask(text)
@@ -256,14 +267,14 @@ def _rule_r6(text, log):
             if not pm:
                 raise Unsupported('R6b: closure parameters %r' % params)
             binds = 'let %s = %s[__r6_i];' % (pm.group(1), E)
-        rep = ('{ let mut __r6_all = true; let mut __r6_i: usize = 0;\n'
+        rep = ('({ let mut __r6_all = true; let mut __r6_i: usize = 0;\n'
                '            while __r6_i < %s.len() && __r6_all {\n'
                '                %s\n'
                '                let __r6_b: bool = %s;\n'
                '                if !__r6_b { __r6_all = false; }\n'
                '                __r6_i += 1;\n'
                '            }\n'
-               '            __r6_all }') % (E, binds, body)
+               '            __r6_all })') % (E, binds, body)
         out = out[:mm.start()] + rep + out[close + 1:]
         n += 1
     # (c)
@@ -283,14 +294,14 @@ def _rule_r6(text, log):
             raise Unsupported('R6c: closure not recognised')
         x, pred = cm.group(1), inner[cm.end():].strip()
         E = mm.group(1)
-        rep = ('{ let mut __r6_out = Vec::new(); let mut __r6_i: usize = 0;\n'
+        rep = ('({ let mut __r6_out = Vec::new(); let mut __r6_i: usize = 0;\n'
                '            while __r6_i < %s.len() {\n'
                '                let %s = &%s[__r6_i];\n'
                '                let __r6_b: bool = %s;\n'
                '                if __r6_b { __r6_out.push(*%s); }\n'
                '                __r6_i += 1;\n'
                '            }\n'
-               '            __r6_out }') % (E, x, E, pred, x)
+               '            __r6_out })') % (E, x, E, pred, x)
         out = out[:mm.start()] + rep + out[close + 1 + tail.end():]
         n += 1
     # (d)
@@ -310,14 +321,14 @@ def _rule_r6(text, log):
             raise Unsupported('R6d: closure not recognised')
         a, b, body = cm.group(1), cm.group(2), inner[cm.end():].strip()
         A, B = mm.group(1), mm.group(2)
-        rep = ('{ let mut __r6_sum: f64 = 0.0; let mut __r6_i: usize = 0;\n'
+        rep = ('({ let mut __r6_sum: f64 = 0.0; let mut __r6_i: usize = 0;\n'
                '        while __r6_i < %s.len() {\n'
                '            let %s = &%s[__r6_i]; let %s = &%s[__r6_i];\n'
                '            let __r6_t: f64 = %s;\n'
                '            __r6_sum = __r6_sum + __r6_t;\n'
                '            __r6_i += 1;\n'
                '        }\n'
-               '        __r6_sum }') % (A, a, A, b, B, body)
+               '        __r6_sum })') % (A, a, A, b, B, body)
         out = out[:mm.start()] + rep + out[close + 1 + tail.end():]
         n += 1
     # (e)
@@ -335,12 +346,85 @@ def _rule_r6(text, log):
         x, stmt = cm.group(1), inner[cm.end():].strip()
         E = mm.group(1)
         stmt2 = re.sub(r'\b%s\b' % re.escape(x), '%s[__r6_i]' % E, stmt)
-        rep = ('{ let mut __r6_i: usize = 0;\n'
+        rep = ('({ let mut __r6_i: usize = 0;\n'
                '        while __r6_i < %s.len() {\n'
                '            %s;\n'
                '            __r6_i += 1;\n'
-               '        } }') % (E, stmt2)
+               '        } })') % (E, stmt2)
         out = out[:mm.start()] + rep + out[close + 1:]
+        n += 1
+    # (h) E.par_iter().filter_map(|&(a, b)| { BODY }).collect()  (rayon: sequential semantics, order kept - assumed)
+    #     BODY uses `return None;` / `return Some(e);`: these become `continue;` / `{ out.push(e); continue; }`
+    while True:
+        m = rs.mask(out)
+        mm = re.search(r'([a-z_][a-z0-9_]*)\s*\.par_iter\(\)\s*\.filter_map\(', m)
+        if not mm:
+            break
+        op = mm.end() - 1
+        close = rs.match_brace(m, op)
+        tail = re.match(r'\s*\.collect\(\)', m[close + 1:])
+        if not tail:
+            raise Unsupported('R6h: filter_map not followed by .collect()')
+        inner = out[op + 1:close]
+        cm = re.match(r'\s*\|\s*&\s*(\([^|]*\))\s*\|\s*\{', inner)
+        if not cm:
+            raise Unsupported('R6h: closure not recognised')
+        pat = cm.group(1)
+        bopen = cm.end() - 1
+        bclose = rs.match_brace(rs.mask(inner), bopen)
+        body = inner[bopen + 1:bclose]
+        body = re.sub(r'return\s+None\s*;', 'continue;', body)
+        body = re.sub(r'return\s+Some\(([^;]*)\)\s*;', r'{ __r6_out.push(\1); continue; }', body)
+        E = mm.group(1)
+        rep = ('({ let mut __r6_out = Vec::new(); let mut __r6_i: usize = 0;\n'
+               '        while __r6_i < %s.len() {\n'
+               '            let %s = %s[__r6_i]; __r6_i = __r6_i + 1;\n'
+               '%s\n'
+               '        }\n'
+               '        __r6_out })') % (E, pat, E, body)
+        out = out[:mm.start()] + rep + out[close + 1 + tail.end():]
+        n += 1
+    # (g) EXPR.iter().map(|&x| BODY).collect()  where EXPR is the (possibly multi-line) receiver chain of the statement
+    while True:
+        m = rs.mask(out)
+        mm = re.search(r'\.iter\(\)\s*\.map\(', m)
+        if not mm:
+            break
+        op = mm.end() - 1
+        close = rs.match_brace(m, op)
+        tail = re.match(r'\s*\.collect\(\)', m[close + 1:])
+        if not tail:
+            raise Unsupported('R6g: map not followed by .collect()')
+        inner = out[op + 1:close]
+        cm = re.match(r'\s*\|\s*&\s*([a-z_][a-z0-9_]*)\s*\|\s*', inner)
+        if not cm:
+            raise Unsupported('R6g: closure not recognised')
+        x, body = cm.group(1), inner[cm.end():].strip()
+        # receiver: back to the start of the expression statement (previous ';', '{', '}' or '=' at depth 0)
+        k = mm.start() - 1
+        d = 0
+        while k >= 0:
+            ch = m[k]
+            if ch in ')]}':
+                d += 1
+            elif ch in '([{':
+                if d == 0:
+                    break
+                d -= 1
+            elif d == 0 and ch in ';=':
+                break
+            k -= 1
+        recv = out[k + 1:mm.start()].strip()
+        lead = out[k + 1:mm.start()]
+        lead_ws = lead[:len(lead) - len(lead.lstrip())]
+        rep = ('%s({ let __r6_src = %s; let mut __r6_out = Vec::new(); let mut __r6_i: usize = 0;\n'
+               '        while __r6_i < __r6_src.len() {\n'
+               '            let %s = __r6_src[__r6_i];\n'
+               '            __r6_out.push(%s);\n'
+               '            __r6_i += 1;\n'
+               '        }\n'
+               '        __r6_out })') % (lead_ws, recv, x, body)
+        out = out[:k + 1] + rep + out[close + 1 + tail.end():]
         n += 1
     if n:
         log.append(('R6', n))
@@ -385,8 +469,13 @@ def _rule_r12(text, log):
     return ''.join(out)
 
 
-def apply_rewrites(text, log, rules):
-    text = _strip_docs_attrs(text, log)
+_ACTIVE_RULES = []
+
+
+def apply_rewrites(text, log, rules, keep_eq=False):
+    global _ACTIVE_RULES
+    _ACTIVE_RULES = rules
+    text = _strip_docs_attrs(text, log, keep_eq)
     if 'D2' in rules:
         text = _rule_d2(text, log)
     if 'R2' in rules:
@@ -409,8 +498,29 @@ def apply_rewrites(text, log, rules):
         text, n4 = re.subn(r'\b([a-z_][a-z0-9_]*)\.extend\(&([a-z_][a-z0-9_]*)\);', r'vec_extend_ref(&mut \1, &\2);', text)
         if n4:
             log.append(('R4', n4))
+    if 'R17' in rules:
+        while True:
+            m17 = rs.mask(text)
+            mm = re.search(r'for\s+&([a-z_][a-z0-9_]*)\s+in\s+&\[([^\[\]]*)\]\s*\{', m17)
+            if not mm:
+                break
+            bo = mm.end() - 1
+            bc = rs.match_brace(m17, bo)
+            body17 = text[bo + 1:bc]
+            elems = [e.strip() for e in mm.group(2).split(',') if e.strip()]
+            rep = ' '.join('let %s = %s; %s' % (mm.group(1), e, body17.strip()) for e in elems)
+            text = text[:mm.start()] + rep + text[bc + 1:]
+            log.append(('R17', 1))
     if 'R6' in rules:
         text = _rule_r6(text, log)
+    if 'R16' in rules:
+        # `for j in (A..B).rev() {` -> `let mut j = B; while j > A { j = j - 1;`  (Verus accepts .rev() but gives the loop
+        # variable no meaning in invariants); the index is stepped first, so `continue` behaves as in the original
+        def r16(mm):
+            return '%slet mut %s: usize = %s; %swhile %s > %s { %s = %s - 1;' % (mm.group(1), mm.group(3), mm.group(5).strip(), mm.group(2), mm.group(3), mm.group(4).strip(), mm.group(3), mm.group(3))
+        text, n16 = re.subn(r"(^[ \t]*)((?:'[a-z_]+\s*:\s*)?)for\s+([a-z_][a-z0-9_]*)\s+in\s+\(\s*(\([^()]*\)|[A-Za-z0-9_]+)\s*\.\.\s*([A-Za-z0-9_]+)\s*\)\.rev\(\)\s*\{", r16, text, flags=re.M)
+        if n16:
+            log.append(('R16', n16))
     if 'R14' in rules:
         # `for x in 0..E.len() {`  ->  `let __n_x = E.len(); for x in 0..__n_x {`  (the range is evaluated once at
         # loop entry in Rust as well; naming the bound lets invariants speak about it when E is mutated in the body)
@@ -723,8 +833,8 @@ def generate(unit_path, repo=REPO):
                 parts = d.split()
                 file = parts[1]
                 rest = ' '.join(parts[2:])
-                opts = dict(re.findall(r'\b(props|kind|ret|rename|vis)=(\S+)', rest))
-                ipath = re.sub(r'\s*\b(props|kind|ret|rename|vis)=\S+', '', rest).strip()
+                opts = dict(re.findall(r'\b(props|kind|ret|rename|vis|eq)=(\S+)', rest))
+                ipath = re.sub(r'\s*\b(props|kind|ret|rename|vis|eq)=\S+', '', rest).strip()
                 props = opts.get('props', ','.join(cur_props)).split(',') if (opts.get('props') or cur_props) else []
                 ann = dict(attr=[], loops={}, loopend={}, loopstart={}, preloop={}, postloop={}, before=[], ret=opts.get('ret'), nested={})
                 top_ann = ann
@@ -826,7 +936,7 @@ def generate(unit_path, repo=REPO):
                     text = apply_rewrites(raw, log, header['rules'])
                     text = splice_trait(text, ann, log)
                 else:
-                    text = apply_rewrites(raw, log, header['rules'])
+                    text = apply_rewrites(raw, log, header['rules'], keep_eq=bool(opts.get('eq')))
                     if it['kind'] == 'fn' and it['body_open'] is not None:
                         text = splice_fn(text, ann, log)
                     lit_sources.append(text)
